@@ -302,6 +302,18 @@ Proof.
   split; [reflexivity|]. intros o Ho. repeat (destruct Ho as [<-|Ho]; [cbn; try exact Logic.I; intros t Ht; repeat (destruct Ht as [<-|Ht]; [vm_compute; tauto|]); destruct Ht|]). destruct Ho.
 Qed.
 
+(** a reachable state in which two ready transactions wait (hypotheses of the state-level theorems) *)
+Definition s_mid : state := run_state cfg_fixed P1 accts u_good empty_state (firstn 4 h_good).
+
+Lemma s_mid_reachable : reachable P1 accts u_good s_mid.
+Proof. exists (firstn 4 h_good). split; reflexivity. Qed.
+
+Lemma s_mid_example :
+  snd (generate P1 s_mid) = Some (9, [A2; B3]) /\ len (unb s_mid (batched s_mid)) = 2 /\
+  batched s_mid = [(0, 1); (0, 0)] /\ get_cn s_mid 0 = 0 /\ get_pn s_mid 0 = 3 /\
+  item_at s_mid (0, 2) = Some A2 /\ map snd (snd (drain cfg_fixed P1 1 s_mid)) = [[A2; B3]].
+Proof. vm_compute. repeat split; reflexivity. Qed.
+
 Lemma good_history_example :
   fails cfg_fixed h_good u_good = [] /\
   map (fun x => o_batches (snd x)) (tr cfg_fixed h_good u_good) =
